@@ -92,7 +92,15 @@ def thread_job(job):
     E = 10.0 ** rng.uniform(-1.0, 2.0, n)
     with dask.config.set(scheduler="threads", num_workers=4), np.errstate(all="ignore"):
         d, a = c32(beta, alt, E, np.zeros(n), np.zeros(n), None)
-    out = []
+    # every event of the batch against its own sequential evaluation (TraceInFlight: a comparison, no model run)
+    pairs = []
+    with np.errstate(all="ignore"):
+        for i in range(n):
+            ds, as_ = c32.run(beta[i], alt[i], E[i], 0.0, 0.0, None)
+            pairs.append({"kind": "pair", "d": bits(d[i]), "a": bits(a[i]), "dseq": bits(ds), "aseq": bits(as_),
+                          "_m": {"i": i, "beta_deg": float(np.degrees(beta[i])), "alt": float(alt[i]), "E100": float(E[i]), "d_threads": float(d[i]),
+                                 "d_sequential": float(ds), "batch": "threads-4"}})
+    out = pairs
     for i in rng.choice(n, size=job["take"], replace=False):
         with np.errstate(all="ignore"):
             d64, a64 = c64.run(beta[i], alt[i], E[i], 0.0, 0.0, None)
@@ -123,7 +131,9 @@ def run(tier="quick", seed=0):
         jobs.append({"events": sub + [ev[int(k)] for k in rng.choice(len(ev), size=30 if thorough else 3, replace=False)], "zdet": zdet})
     jobs.append({"t": "threads", "seed": seed + 5, "n": 230, "take": 24 if thorough else 8})
     res = par.pmap(_dispatch, jobs, workers=14)
-    events = [e for r in res for e in r]
+    events = [e for r in res for e in r if e["kind"] != "pair"]
+    pairs = [e for r in res for e in r if e["kind"] == "pair"]
+    pr.validate("TraceInFlight", pairs, name="events-in-flight", chunks=2)
     # cost of an event in TLC grows with the number of track steps (low emergence angle): interleave cheap and expensive events over the chunks
     events.sort(key=lambda e: e["_m"]["beta_deg"])
     nchunk = 16
